@@ -134,7 +134,7 @@ def _run_unit(unit_name, rlimit=None, extra_args=()):
     n_contract = len([1 for o in obligations.values() if o["kind"] == "contract"])
     if not m:
         raise Infra("%s.vc has no //@expect-labels header" % unit_name)
-    if int(m.group(1)) != n_contract or n_contract == 0:
+    if (int(m.group(1)) != n_contract and not u.lost) or n_contract == 0:   # (functions whose extraction failed locally carry fewer labelled obligations)
         raise Infra("%s.vc declares %s labelled obligations but the generated unit has %d" % (
             unit_name, m.group(1), n_contract))
 
@@ -299,7 +299,7 @@ def _run_unit(unit_name, rlimit=None, extra_args=()):
             if not any(short.endswith(ff.split("@")[-1]) or (ff and ff.split("::")[-1] == short.split("::")[-1]) for ff in failed_fns if ff):
                 infra.append("function %s failed without a mapped diagnostic (rlimit/timeout?)" % fname)
     return dict(unit=unit_name, obligations=obligations, failures=failures, canaries=canary_ok, infra=infra,
-                functions=u.functions, counts=dict(u.counts), shapes=getattr(u.counts, "per_owner", {}), dropped=u.dropped, diffs=u.diffs, trusted=trusted,
+                functions=u.functions, counts=dict(u.counts), shapes=getattr(u.counts, "per_owner", {}), lost=u.lost, dropped=u.dropped, diffs=u.diffs, trusted=trusted,
                 cmd="cd %s && %s" % (BUILD, " ".join(cmd)), wall_s=wall, verus=vr, times=times, gen_path=out,
                 verus_version=(summary or {}).get("verus", {}).get("version"),
                 gen_sha=hashlib.sha256(text.encode()).hexdigest()[:16], raw_stderr=p.stderr)
@@ -310,6 +310,6 @@ if __name__ == "__main__":
         r = run_unit(sys.argv[1])
     except (AnchorLost, Infra) as e:
         print("INFRA", e); sys.exit(2)
-    print(json.dumps(dict(verus=r["verus"], n_obligations=len(r["obligations"]), canaries=r["canaries"], infra=r["infra"],
+    print(json.dumps(dict(verus=r["verus"], n_obligations=len(r["obligations"]), canaries=r["canaries"], infra=r["infra"], lost=r["lost"],
                           failures=[(f["obligation"], f.get("detail", ""), f["src"]) for f in r["failures"]],
                           counts=r["counts"], wall=r["wall_s"]), indent=1))
